@@ -675,6 +675,7 @@ impl LcdController {
         for chip in &self.chips {
             chips_meta.push(json!({
                 "on": chip.state.on,
+                "busy": chip.state.busy,
                 "start_line": chip.state.start_line,
                 "page": chip.state.page,
                 "y_address": chip.state.y_address,
@@ -720,6 +721,7 @@ impl LcdController {
             if let Some(chips) = metadata.get("chips").and_then(|v| v.as_array()) {
                 if let Some(meta) = chips.get(idx) {
                     chip.state.on = meta.get("on").and_then(|v| v.as_bool()).unwrap_or(false);
+                    chip.state.busy = meta.get("busy").and_then(|v| v.as_bool()).unwrap_or(false);
                     chip.state.start_line =
                         meta.get("start_line").and_then(|v| v.as_u64()).unwrap_or(0) as u8;
                     chip.state.page = meta.get("page").and_then(|v| v.as_u64()).unwrap_or(0) as u8;
